@@ -165,3 +165,32 @@ Theorem C01_names_and_labels_rematch_partial :
 Proof. exact live_name_class. Qed.
 Goal True. idtac "ASSUMPTIONS-OF C01_names_and_labels_rematch_partial". Abort.
 Print Assumptions C01_names_and_labels_rematch_partial.
+
+(* ... the list classes (SequenceBase: the 80-odd generated <X>_List classes and the others that delegate to it with a
+   constant separator -- read off on every run, Gen/SrmGen.v; the model of string_replace_map and of the cut is
+   Model/Srm.v).  For EVERY live list class: the text that SequenceBase.tostr prints for entries e1 ... en is cut into
+   exactly e1 ... en again, whatever the number of entries, provided each entry is well formed in the decidable sense
+   of good_entry: no quotation mark or backslash, no bracket left open, no comma outside brackets, no blank at either
+   end, and invariant under the replacement map (no blank just inside a bracket pair -- what tostr prints).
+   (_partial: entries with character literals are outside the theorem -- computed examples and the correspondence
+   only; what the sub-rule makes of each entry stays outside the model.) *)
+From FV Require Import Srm SrmLaws SrmGen SrmOk.
+Theorem C01_every_live_list_class_recuts_its_own_print_partial :
+  forall cls sep, In (cls, sep) seq_classes ->
+  forall es, es <> [] -> forallb good_entry es = true -> seq_match sep (seq_tostr sep es) = es.
+Proof. intros cls sep H. exact (proj2 (proj2 (live_seq_classes cls sep H))). Qed.
+Goal True. idtac "ASSUMPTIONS-OF C01_every_live_list_class_recuts_its_own_print_partial". Abort.
+Print Assumptions C01_every_live_list_class_recuts_its_own_print_partial.
+
+(* non-vacuity: entries with nested brackets, array constructors and derived-type references meet good_entry; an
+   entry with a blank inside its brackets or with a top-level comma does not; with literals: computed *)
+Example C01_example_list_classes :
+  let t := fun x => list_ascii_of_string x in
+  forallb good_entry [t "a(1, 2)"%string; t "x%y(i, j)%z"%string; t "(/1, 2/)"%string; t "f(g(1, [3, 4]), n)"%string; t "k = h(2, 3)"%string] = true /\
+  good_entry (t "a( i+1 )"%string) = false /\ good_entry (t "a, b"%string) = false /\ good_entry (t "a(1"%string) = false /\
+  seq_tostr comma [t "a(1, 2)"%string; t "'p, q'"%string; t "b"%string] = t "a(1, 2), 'p, q', b"%string /\
+  seq_match comma (t "a(1, 2), 'p, q', b"%string) = [t "a(1, 2)"%string; t "'p, q'"%string; t "b"%string] /\
+  In ("f2003:Section_Subscript_List"%string, ","%char) seq_classes.
+Proof. cbv zeta. repeat split; vm_compute; tauto. Qed.
+Goal True. idtac "ASSUMPTIONS-OF C01_example_list_classes". Abort.
+Print Assumptions C01_example_list_classes.
